@@ -165,6 +165,18 @@ class _Run:
         ws = self.ws
         n = op[0]
         self.items = None
+        taken0 = len(self.peer.delivered_idx)
+        try:
+            return await self._invoke(ws, n, op)
+        finally:
+            # one non-iterating call takes at most ONE event from the server (whatever it then does with it): a frame that a
+            # call swallows on its way to another one is lost to the application. (Single-task histories only.)
+            took = len(self.peer.delivered_idx) - taken0
+            if self.plan["variant"] == "seq" and n in ("accept", "receive", "receive_text", "receive_bytes") and took > 1:
+                self.violate("call-took-several-server-events", n, "%s() took %d events from the server: %r"
+                             % (n, took, [self.script[j]["type"] for j in self.peer.delivered_idx[taken0:]]))
+
+    async def _invoke(self, ws, n, op):
         try:
             if n == "accept":
                 r = await (ws.accept() if op[1] is None else ws.accept(op[1]))
